@@ -47,7 +47,7 @@ def gen_value(rng, feat, depth=0, placeholders=None):
     if r < 0.5:
         return rng.choice([0, 1, 2, 5, -3, 10 ** 12, 7])
     if r < 0.6:
-        return rng.choice([0.5, 2.25, -1.5, 1e-3, 1e-05, 5e-07, 1e+22, 2.5e-09, 1e16])   # (JSON spells the small and large ones without a decimal point)
+        return rng.choice([0.5, 2.25, -1.5, 1e-3, 1e-05, 5e-07, 1e+22, 2.5e-09, 1e16, 1e-12, 3e-13])   # (JSON spells the small and large ones without a decimal point)
     if r < 0.7:
         return rng.choice([True, False, None])
     s = ''.join(rng.choice(STR_ALPHABET if feat.get('adversarial_strings') else ['a', 'b', 'x', 'é', ' ', '0', '/'])
@@ -372,6 +372,11 @@ def gen_spec(rng: random.Random, feat=None):
                                 for pd_ in f_['parts'].values():
                                     if pd_.get('tasks') == [mp_ + '.*'] and 'excluded_tasks' not in pd_:
                                         pd_['excluded_tasks'] = [f'{mp_}.{a_["cls"]}']
+    if feat.get('falsy_tasks', True):
+        for m_ in modules:
+            for t_ in m_['tasks']:
+                if not t_.get('abstract') and rng.random() < 0.04:
+                    t_['falsy_task'] = True
     spec['fnames'] = fnames
     spec['extra_mounts'] = extra_mounts
     spec['free_ns_words'] = list(ns_words)
@@ -612,6 +617,11 @@ def same_type_value(rng, v):
     if isinstance(v, int):
         return v + rng.choice([1, 10, -7])
     if isinstance(v, float):
+        if rng.random() < 0.45:
+            # another float that differs only far behind the decimal point (tolerances, learning rates: 1e-12 vs 1e-13, 0.5 vs 0.50000000000001)
+            w = v * 0.1 if 0 < abs(v) < 1e-6 else v + max(abs(v), 1.0) * 1e-14 * rng.choice([1, 3, 7])
+            if w != v:
+                return w
         return v + 0.5
     if isinstance(v, str) and len(v) > 100:
         m = len(v) // 2
